@@ -1507,7 +1507,14 @@ impl Collection {
             }
             Ok(())
         })
-        .await
+        .await?;
+        // The backfill only exists in memory. Persist it before the caller
+        // registers the index: every metadata write that can follow in the
+        // same open callback (an index removal, an extension save) publishes
+        // the whole in-memory registry, and a registered index is never
+        // backfilled again.
+        index.flush(now_ms).await?;
+        Ok(())
     }
 
     async fn backfill_bm25_index(&self, index: &BM25, now_ms: u64) -> Result<(), DBError> {
@@ -1521,7 +1528,10 @@ impl Collection {
             }
             Ok(())
         })
-        .await
+        .await?;
+        // See `backfill_btree_index`: durable before it can be registered.
+        index.flush(now_ms).await?;
+        Ok(())
     }
 
     async fn backfill_hnsw_index(&self, index: &Hnsw, now_ms: u64) -> Result<(), DBError> {
@@ -1535,7 +1545,10 @@ impl Collection {
             }
             Ok(())
         })
-        .await
+        .await?;
+        // See `backfill_btree_index`: durable before it can be registered.
+        index.flush(now_ms).await?;
+        Ok(())
     }
 
     async fn try_upgrade_schema(&mut self, mut new_schema: Schema) -> Result<(), DBError> {
